@@ -50,7 +50,11 @@ BadItems(it) ==
          IF it.n = 0 THEN {} ELSE
          LET sz == FieldSize(it.f)
              with(pos, chunk) == CatAll([i \in 1..it.n |-> IF i = pos THEN chunk ELSE OneBytes(it.f)])
-         IN {with(1, PBytes(it.f)), with(it.n, FFBytes(sz)), with((it.n + 1) \div 2, PBytes(it.f))}
+             \* a small valid element with the top bit of its last byte set (above the modulus for every field whose
+             \* modulus is shorter than the encoding; the verdict comes from Dec either way)
+             hi == [i \in 1..sz |-> IF i = 1 THEN 1 ELSE IF i = sz THEN 128 ELSE 0]
+             hi1 == IF sz = 1 THEN <<129>> ELSE hi
+         IN {with(1, PBytes(it.f)), with(it.n, FFBytes(sz)), with((it.n + 1) \div 2, PBytes(it.f)), with(it.n, hi1), with(1, hi1)}
     [] it.k = "opaque" -> {FFBytes(it.w), BEn(6, it.w) \o <<1, 2, 3, 4, 5>>, BEn(1, it.w)}
     [] it.k = "items" -> {FFBytes(it.w), BEn(2 * it.size + 1, it.w) \o [i \in 1..(2 * it.size + 1) |-> i]} \cup (IF it.size > 1 THEN {BEn(1, it.w) \o <<7>>} ELSE {})
     [] it.k = "cbits" -> LET nb == (2 * it.bits + 7) \div 8 IN
